@@ -1,6 +1,6 @@
 #!/bin/bash
 # usage: tools/try_seed.sh <patch> <prop> [tier]  — apply a seeded defect to /repo, run the check, always revert
-patch=$1; prop=$2; tier=${3:-quick}
+patch=$(realpath $1); prop=$2; tier=${3:-quick}
 cd /verif
 git -C /repo diff --quiet || { echo "repo dirty"; exit 9; }
 git -C /repo apply "$patch" || { echo "patch failed"; exit 9; }
